@@ -67,6 +67,15 @@ def observe_tree(root, per_node=True):
     errs = []
     ev["craised"] = _outcome(lambda: validate.tree(root, errs))
     ev["coll"] = [[e[0].name if shape_ok(e) else "~bad", idx.get(id(e[2]), 0) if isinstance(e, tuple) and len(e) >= 3 else 0, bool(shape_ok(e))] for e in errs]
+    if ev["craised"]["kind"] == "ok":
+        # validating into a list that already holds an entry must append exactly the same problems
+        sentinel = ("earlier entry",)
+        errs2 = [sentinel]
+        o2 = _outcome(lambda: validate.tree(root, errs2))
+        if o2["kind"] != "ok":
+            ev["craised"] = o2
+        elif errs2[0] is not sentinel or [(e[0], id(e[2])) for e in errs2[1:] if shape_ok(e)] != [(e[0], id(e[2])) for e in errs if shape_ok(e)]:
+            ev["craised"] = {"kind": "other", "exc": "CollectingDependsOnEarlierEntries"}
     ev["per_node"] = per_node
     return ev
 
